@@ -565,6 +565,22 @@ func emitHistory(o *out, prop, desc string, calls []*ccall) {
 }
 
 func scriptedAgentScenarios(o *out, prop string) {
+	// every scenario runs on a goroutine of its own and is given 10 s: a call that never returns (a handler
+	// calling back into an agent that still holds its mutex) is reported and the next scenario starts
+	stuck := 0
+	bounded := func(name string, f func()) {
+		if stuck >= 3 {
+			return
+		}
+		done := make(chan struct{})
+		go func() { defer close(done); f() }()
+		select {
+		case <-done:
+		case <-time.After(10 * time.Second):
+			stuck++
+			o.failFor(prop, "agent-call-does-not-return", "x scripted scenario "+name+": a call into the agent (or from one of its handlers) has not returned after 10 s")
+		}
+	}
 	newScenario := func() (*scenario, *gstate) {
 		s := &scenario{nids: 4}
 		s.a = stun.NewAgent(s.handler(1))
@@ -574,6 +590,8 @@ func scriptedAgentScenarios(o *out, prop string) {
 	}
 	// (a) a timeout handler registers two more expired transactions and collects them itself
 	for rep := 0; rep < 3; rep++ {
+		rep := rep
+		bounded("reentrant-collect", func() {
 		s, g := newScenario()
 		fired := false
 		s.script = func(s *scenario, g *gstate, ev agentEv) {
@@ -589,10 +607,13 @@ func scriptedAgentScenarios(o *out, prop string) {
 		}
 		s.gs.Delete(goid())
 		emitHistory(o, prop, "reentrant-collect", s.calls)
+		})
 	}
 	// (b) a hundred and more expirations in one Collect; the first handler registers a late, already expired
 	// transaction: the Collect that is running must not time it out (its critical section is over)
 	for _, k := range []int{99, 100, 101, 130} {
+		k := k
+		bounded("mass-expiry-with-late-start", func() {
 		s, g := newScenario()
 		fired := false
 		s.script = func(s *scenario, g *gstate, ev agentEv) {
@@ -609,10 +630,12 @@ func scriptedAgentScenarios(o *out, prop string) {
 		}
 		s.gs.Delete(goid())
 		emitHistory(o, prop, fmt.Sprintf("mass-expiry-with-late-start k=%d", k), s.calls)
+		})
 	}
 	// (c) after a Collect of more than a hundred, two Collects overlap: the first is held in its first
 	// handler call while a second one, in another goroutine, collects other transactions
 	for rep := 0; rep < 3; rep++ {
+		bounded("overlapping-collects-after-mass-collect", func() {
 		s, g := newScenario()
 		for id := 1; id <= 120; id++ {
 			s.doCall(g, []int{1, id, 1})
@@ -654,10 +677,13 @@ func scriptedAgentScenarios(o *out, prop string) {
 		s.doCall(g, []int{6})
 		s.gs.Delete(goid())
 		emitHistory(o, prop, "overlapping-collects-after-mass-collect", s.calls)
+		})
 	}
 	// (d) the handler of a transaction's terminal event (a response, a stop, a timeout) registers the same ID
 	// again: the transaction is already gone, so that Start succeeds and the new transaction stays
 	for _, term := range [][]int{{3, 1, 0x0101}, {2, 1, 0}, {2, 1, 7}, {4, 5}} {
+		term := term
+		bounded("handler-restarts-same-id", func() {
 		s, g := newScenario()
 		fired := false
 		s.script = func(s *scenario, g *gstate, ev agentEv) {
@@ -671,5 +697,6 @@ func scriptedAgentScenarios(o *out, prop string) {
 		}
 		s.gs.Delete(goid())
 		emitHistory(o, prop, fmt.Sprintf("handler-restarts-same-id after op %v", term), s.calls)
+		})
 	}
 }
